@@ -99,7 +99,9 @@ class Ctx(object):
         self.seed = seed
         self.rng = random.Random(seed)
         self.t0 = time.time()
-        self.scratch = tempfile.mkdtemp(prefix="vt_%s_" % prop)
+        # scratch databases are fsync-heavy: prefer the memory-backed tmpfs when there is one
+        base = "/dev/shm" if os.path.isdir("/dev/shm") and os.access("/dev/shm", os.W_OK) else None
+        self.scratch = tempfile.mkdtemp(prefix="vt_%s_" % prop, dir=base)
         self.states = 0
         self.transitions = 0
         self.traces = 0
@@ -301,11 +303,17 @@ def assert_repo():
         raise MachineryError("gffutils imported from %s, expected %s" % (here, want))
 
 
+def _freeze():
+    # the forked worker inherits the parent's (large) heap: keep the collector away from it
+    import gc
+    gc.freeze()
+
+
 def pmap(func, items, procs=16, chunksize=None):
     """Run func over items in worker processes (fork), keeping order."""
     import multiprocessing as mp
     if len(items) < 64 or procs <= 1:
         return [func(i) for i in items]
     ctx = mp.get_context("fork")
-    with ctx.Pool(procs) as pool:
+    with ctx.Pool(procs, initializer=_freeze) as pool:
         return pool.map(func, items, chunksize or max(1, len(items) // (procs * 8)))
